@@ -763,7 +763,7 @@ impl Subscription {
             .await?;
         #[cfg(sierradb_verif)]
         verif::pause("hist:batch", verif_detail.clone()).await;
-        while let Some(commits) = iter.next_batch(DEFAULT_BATCH_SIZE).await? {
+        'iter: while let Some(commits) = iter.next_batch(DEFAULT_BATCH_SIZE).await? {
             #[cfg(sierradb_verif)]
             verif::note("hist:len", commits.len() as u64);
             for commit in commits {
@@ -772,7 +772,7 @@ impl Subscription {
                 };
 
                 if !watermark.can_read(first_partition_sequence) {
-                    break;
+                    break 'iter;
                 }
 
                 for event in commit {
